@@ -537,6 +537,37 @@ func c02Witness(name string, w *World) *History {
 			report(c.raw, u0, false)
 		}
 		s.empty(2)
+	case "olvm_create_prefunded":
+		// native SENDs to the FUTURE addresses of contracts (CreateAddress(deployer, nonce) is computable in advance), committed; then
+		// the OLVM creations at those addresses: without / with endowment, with reverting init code, a self-destructing contract that
+		// is then called (pays everything out), and inner CREATE / CREATE2 of a factory at pre-funded child addresses.
+		// A creation moves the endowment and the gas fee, NOTHING else: the new contract holds what the address held + the endowment
+		e0, e1 := w.Eth[0], w.Eth[1]
+		ca := func(a keys.Address, n uint64) keys.Address {
+			return keys.Address(ethcrypto.CreateAddress(ethcmn.BytesToAddress(a.Bytes()), n).Bytes())
+		}
+		f0, f1, f2, f3, fac := ca(e0.Addr, 0), ca(e0.Addr, 1), ca(e0.Addr, 2), ca(e0.Addr, 3), ca(e0.Addr, 4)
+		child1 := ca(fac, 1) // the factory's own nonce starts at 1 (EIP-161)
+		child2 := keys.Address(ethcrypto.CreateAddress2(ethcmn.BytesToAddress(fac.Bytes()), [32]byte{}, ethcrypto.Keccak256(nil)).Bytes())
+		// factory runtime: calldatasize == 0 -> CREATE(callvalue, 0, 0) ; else CREATE2(callvalue, 0, 0, salt 0); STOP
+		//   CALLDATASIZE PUSH1 0x0b JUMPI | PUSH1 0 PUSH1 0 CALLVALUE CREATE STOP | JUMPDEST PUSH1 0 PUSH1 0 PUSH1 0 CALLVALUE CREATE2 STOP
+		factory := []byte{0x36, 0x60, 0x0b, 0x57, 0x60, 0x00, 0x60, 0x00, 0x34, 0xf0, 0x00, 0x5b, 0x60, 0x00, 0x60, 0x00, 0x60, 0x00, 0x34, 0xf5, 0x00}
+		s.empty(2)
+		s.block([][]byte{txSend(u0, f0, oltAmt("1000"), s.memo()), txSend(u1, f1, oltAmt("777000000000"), s.memo()), txSend(u0, f2, oltAmt("99"), s.memo()),
+			txSend(u1, f3, oltAmt("4000"), s.memo()), txSend(u0, child1, oltAmt("31000"), s.memo()), txSend(u0, child2, oltAmt("52000"), s.memo())},
+			"send to a future contract address", "send to a future contract address", "send to a future contract address", "send to a future contract address",
+			"send to a future CREATE child address", "send to a future CREATE2 child address")
+		s.empty(1)
+		s.block([][]byte{txOLVM(e0, nil, 0, "0", 200000, c17Deployer(c17RtStop))}, "olvm creation at a funded address, no endowment")
+		s.block([][]byte{txOLVM(e0, nil, 1, "5000", 200000, c17Deployer(c17RtToggle))}, "olvm creation at a funded address, endowment 5000")
+		s.block([][]byte{txOLVM(e0, nil, 2, "12", 200000, c17InitRevert)}, "olvm creation at a funded address, init code reverts")
+		s.block([][]byte{txOLVM(e0, nil, 3, "3", 200000, c17Deployer(c17RtSuicide)), txOLVM(e1, &f3, 0, "2", 100000, nil)},
+			"olvm creation of a self-destructing contract at a funded address", "olvm call: self-destruct pays out to the caller")
+		s.block([][]byte{txOLVM(e0, nil, 4, "0", 300000, c17Deployer(factory))}, "olvm creation of a factory")
+		s.block([][]byte{txOLVM(e1, &fac, 1, "7", 300000, nil), txOLVM(e1, &fac, 2, "9", 300000, []byte{1})},
+			"olvm call: factory CREATEs a child at a funded address (endowment 7)", "olvm call: factory CREATE2s a child at a funded address (endowment 9)")
+		s.block([][]byte{txOLVM(e1, &f0, 3, "1", 100000, nil), txSend(u0, f1, oltAmt("5"), s.memo())}, "olvm transfer to the created contract", "native send to a contract")
+		s.empty(1)
 	case "two_finalized_in_one_block":
 		full := scenarioHistory("govupdate", w)
 		s.h.Blocks, s.h.Descr = full.Blocks[:7], full.Descr[:7]
@@ -841,7 +872,7 @@ func c02Main(args []string) int {
 			}
 		}
 		world := [3]int{3, 5, 2}
-		for _, name := range []string{"proposal_fund_negative", "two_finalized_in_one_block", "withdraw_funds_negative", "withdraw_reward_negative", "olvm_foreign_from", "double_unstake", "self_stake_foreign_slot0", "refused_credit_then_spend", "reward_withdrawal_empty_pool", "reward_withdrawal_empty_pool_checktx", "bid_negative_amount", "olvm_sstore_refund", "eth_redeem_refund"} {
+		for _, name := range []string{"proposal_fund_negative", "two_finalized_in_one_block", "withdraw_funds_negative", "withdraw_reward_negative", "olvm_foreign_from", "double_unstake", "self_stake_foreign_slot0", "refused_credit_then_spend", "reward_withdrawal_empty_pool", "reward_withdrawal_empty_pool_checktx", "bid_negative_amount", "olvm_sstore_refund", "eth_redeem_refund", "olvm_create_prefunded"} {
 			w := NewWorld(world[0], world[1], world[2])
 			c, p := c02RunHistoryG("witness_"+name, world, c02Witness(name, w), c02WitnessExodus[name], c02WitnessGenesis[name])
 			cases = append(cases, c)
